@@ -1,5 +1,8 @@
 import Martian.Props.C15.Wire
 import Martian.Lemmas.MessageView
+import Martian.Props.C15.Isolation
+import Martian.Props.C15.Flags
+import Martian.Props.C15.Facts
 /-!
 C15 — Logging and snapshotting never change the message that is forwarded.
 Only property theorems and non-vacuity examples live here.
